@@ -1165,3 +1165,80 @@ Proof.
     + unfold expand. rewrite Eb. cbn [negb]. unfold pieces_out. cbn [map concat app].
       rewrite (unescape_no_brace fmt Eb). reflexivity.
 Qed.
+
+(* ------------------------------------------------------------------------------------------ *)
+(* F. logParse over several log directives: nothing is carried from one directive to the next   *)
+(* ------------------------------------------------------------------------------------------ *)
+Lemma log_parse_loop_map : forall ds es,
+  log_parse_loop false pstate0 ds = Some es <-> map parse_dir ds = map Some es.
+Proof.
+  induction ds as [|d ds IH]; intros es; cbn [log_parse_loop map].
+  - split; intro H.
+    + injection H as <-. reflexivity.
+    + destruct es; [reflexivity|discriminate].
+  - unfold parse_dir at 1. destruct (parse_dir_from pstate0 d) as [st'|]; cbn [option_map].
+    + destruct (log_parse_loop false pstate0 ds) as [es0|] eqn:E.
+      * split; intro H.
+        -- injection H as <-. cbn [map]. f_equal. apply (proj1 (IH es0)). reflexivity.
+        -- destruct es as [|e es]; [discriminate|]. cbn [map] in H. injection H as H1 H2.
+           apply (proj2 (IH es)) in H2. injection H2 as ->. rewrite H1. reflexivity.
+      * split; intro H; [discriminate|].
+        destruct es as [|e es]; [discriminate|]. cbn [map] in H. injection H as H1 H2.
+        apply (proj2 (IH es)) in H2. discriminate.
+    + split; intro H; [discriminate|]. destruct es; discriminate.
+Qed.
+
+(* every parsed entry - scope, output, format, except list - is what ITS directive means when it
+   is read alone, whatever stands before or after it in the file *)
+Lemma log_parse_each_its_own ds es :
+  log_parse ds = Some es <-> map parse_dir ds = map Some es.
+Proof. apply log_parse_loop_map. Qed.
+
+Lemma log_parse_nth ds es i d :
+  log_parse ds = Some es -> nth_error ds i = Some d ->
+  exists e, nth_error es i = Some e /\ parse_dir d = Some e.
+Proof.
+  intros H Hd. apply log_parse_each_its_own in H.
+  pose proof (map_nth_error parse_dir i ds Hd) as H1. rewrite H in H1.
+  rewrite nth_error_map in H1. destruct (nth_error es i) as [e|]; [|discriminate].
+  cbn [option_map] in H1. injection H1 as H1. exists e. split; [reflexivity|symmetry; exact H1].
+Qed.
+
+(* the file read in the opposite order gives the same entries in the opposite order; more
+   generally a concatenation parses piecewise *)
+Lemma log_parse_rev ds es : log_parse ds = Some es -> log_parse (rev ds) = Some (rev es).
+Proof.
+  intro H. apply log_parse_each_its_own in H. apply log_parse_each_its_own.
+  rewrite !map_rev, H. reflexivity.
+Qed.
+Lemma log_parse_app ds1 ds2 es1 es2 :
+  log_parse ds1 = Some es1 -> log_parse ds2 = Some es2 -> log_parse (ds1 ++ ds2) = Some (es1 ++ es2).
+Proof.
+  intros H1 H2. apply log_parse_each_its_own in H1, H2. apply log_parse_each_its_own.
+  rewrite !map_app, H1, H2. reflexivity.
+Qed.
+
+(* hence, for a site written as raw directives: each configured log gets exactly one line iff
+   the request is in the scope and not excepted by the except list written in ITS OWN block *)
+Lemma raw_one_line_per_log c cs tbl (haserr hdrw : bool) ds es path ops ret :
+  log_parse ds = Some es ->
+  counts_ok cs (map dir_of es) 0 path (snd (site_serve c cs tbl haserr hdrw (map dir_of es) path ops ret)) = true /\
+  map (fun d => option_map dir_of (parse_dir d)) ds = map (fun e => Some (dir_of e)) es.
+Proof.
+  intro H. split; [apply site_one_line_per_log|].
+  apply log_parse_each_its_own in H.
+  rewrite <- (map_map parse_dir (option_map dir_of)), H, map_map. reflexivity.
+Qed.
+
+(* the variant with the block variables declared before the loop: a directive inherits the
+   except list and the format of the one before it *)
+Local Open Scope string_scope.
+Definition carried_demo : list rawdir :=
+  [ {| rd_args := [bs "/a"; bs "a.log"; bs "{status}"]; rd_block := [(bs "except", [bs "/a/x"])] |};
+    {| rd_args := [bs "/"; bs "b.log"]; rd_block := [] |} ].
+Lemma log_parse_carried_differs :
+  exists ds es es', log_parse ds = Some es /\ log_parse (rev ds) = Some (rev es) /\
+    log_parse_carried ds = Some es' /\
+    map pe_except es = [[bs "/a/x"]; []] /\ map pe_except es' = [[bs "/a/x"]; [bs "/a/x"]] /\
+    map pe_format es = [bs "{status}"; lit_default_format] /\ map pe_format es' = [bs "{status}"; bs "{status}"].
+Proof. exists carried_demo. eexists. eexists. vm_compute. repeat split; reflexivity. Qed.
